@@ -48,7 +48,7 @@ Proof. exact fixed_undefined_required. Qed.
    [conforms] = the declarative reading (greatest fixed point), [conforms_skip] = the same reading with
    dictionary / stream / '*' entries of type Any not checked (the known finding);
    [wf_univ tc c] (computable): every name mentioned anywhere in the normalised specification is
-   defined and no disjunction is empty;
+   defined (an empty disjunction is allowed: nothing conforms to it);
    [no_any_entry_attrs tc c] (computable): no entry check resolving to type Any carries a predicate
    or a non-Allowed indirect specification. *)
 
